@@ -6,7 +6,13 @@ import glob, json, os, shutil, sys
 OUT = "/tmp/wt/out"
 DST = "/verif/seeded"
 os.makedirs(DST, exist_ok=True)
+# confirmed seeds that are not kept, with the reason
+EXCLUDE = {
+    "C05b/1": "same mechanism as C05-2 (memcmp of a prefix in ed25519_new_point); the fix c17871bb rewrote that comparison, the patch no longer applies",
+}
 for d in sorted(glob.glob(OUT + "/C*/[0-9]*")):
+    if "/".join(d.split("/")[-2:]) in EXCLUDE:
+        continue
     v = os.path.join(d, "validation.json")
     if not os.path.exists(v):
         continue
